@@ -431,7 +431,10 @@ class _SyncEnv(Env):
         return self.sim.cur.name
 
     def busy(self, us):
+        # CPU time inside user code: the clock moves, and - as under a real GIL, which is handed over every few
+        # milliseconds - threads whose deadline passed meanwhile get to run before the action returns
         self.sim.now += int(us)
+        self.sim.yield_after_busy()
 
 
 def _thread_census(sim):
